@@ -1753,6 +1753,9 @@ func init() {
 }
 
 func raceChild(bin bool, nbinds, nevents int) {
+	if caseOut == nil { // started from init(), before main set it
+		caseOut = os.Stdout
+	}
 	ln, err := net.Listen("tcp", "127.0.0.1:0")
 	if err != nil {
 		return
@@ -1795,7 +1798,7 @@ func raceChild(bin bool, nbinds, nevents int) {
 	ctx, cancel := context.WithCancel(context.Background())
 	rp, err := gorwp.Connect(ln.Addr().String(), ctx, cancel)
 	if err != nil || rp == nil {
-		fmt.Println("CHILD noconnect")
+		fmt.Fprintln(caseOut, "CHILD noconnect")
 		return
 	}
 	for id := uint32(1); id <= 4; id++ {
@@ -1836,16 +1839,16 @@ func raceChild(bin bool, nbinds, nevents int) {
 	}()
 	select {
 	case <-markerCh:
-		fmt.Println("CHILD live")
+		fmt.Fprintln(caseOut, "CHILD live")
 	case <-time.After(watchdog + 5*time.Second):
-		fmt.Println("CHILD stalled")
+		fmt.Fprintln(caseOut, "CHILD stalled")
 	}
 	wg.Wait()
 	mu.Lock()
 	if calls == nevents {
-		fmt.Println("CHILD calls-ok")
+		fmt.Fprintln(caseOut, "CHILD calls-ok")
 	} else {
-		fmt.Println("CHILD calls", calls, "of", nevents)
+		fmt.Fprintln(caseOut, "CHILD calls", calls, "of", nevents)
 	}
 	mu.Unlock()
 	cancel()
